@@ -29,6 +29,7 @@ fn streams(t: Tier) -> Vec<StreamDef> {
         st("flagwords", t.n(65536, 65536, 0, 65536), true),
         st("big", t.n(320, 8000, 0, 320), false),
         st("reveal", t.n(20_000, 1_000_000, 32, 8_000), false),
+        st("vendor_grid", t.n(wire::VENDOR_GRID, wire::VENDOR_GRID, 0, wire::VENDOR_GRID), true),
     ]
 }
 
@@ -201,6 +202,12 @@ fn run(ctx: &mut Ctx) {
             let b = body_for_word(&mut ctx.rng, w, n);
             let o = Some(SOpts::from_index(ctx.rng.below(8) as u8));
             judge_msg(ctx, &b, o);
+        }
+        "vendor_grid" => {
+            let idx = ctx.idx;
+            let b = wire::vendor_grid_case(&mut ctx.rng, idx);
+            judge_msg(ctx, &b, Some(SOpts::from_index((idx % 8) as u8)));
+            judge_avps(ctx, &b[12..]);
         }
         "reveal" => {
             // reveal builds a private SliceReader, so its requests cannot be logged; what can be
